@@ -35,3 +35,6 @@ pub use error::{
   BatchSendErrorReason, CloseError, RecvError, RecvErrorTimeout, SendBatchError, SendError,
   TryRecvError, TrySendBatchError, TrySendError,
 };
+/// Verification hooks (only with `RUSTFLAGS="--cfg excsn_fibre_verif"`).
+#[cfg(all(not(loom), excsn_fibre_verif))]
+pub use internal::sync::verif;
